@@ -231,11 +231,11 @@ class TOAdapter(Adapter):
 
 class CRAdapter(Adapter):
     name, lean = "CR", "cr"
-    cfgs = ("nd-same", "nd-wide", "df-wide")
-    quick_cfgs = ("nd-same", "nd-wide", "df-wide")
+    cfgs = ("nd-same", "nd-wide", "df-wide", "df-moved")
+    quick_cfgs = ("nd-same", "nd-wide", "df-wide", "df-moved")
 
     def widths(self, cfg):
-        return (3, 3) if cfg == "nd-same" else (3, 4)
+        return (3, 3) if cfg in ("nd-same", "df-moved") else (3, 4)
 
     def make(self, cfg):
         from fairlearn.preprocessing import CorrelationRemover
@@ -245,17 +245,21 @@ class CRAdapter(Adapter):
             return CorrelationRemover(sensitive_feature_ids=[0, 1], alpha=0.5)
         return CorrelationRemover(sensitive_feature_ids=["a"], alpha=0.75)
 
-    def _x(self, cfg, X):
+    def _x(self, cfg, X, which=1):
         if cfg == "df-wide":
             return pd.DataFrame(X, columns=list("abcd")[:X.shape[1]])
+        if cfg == "df-moved":
+            # same width, but the named sensitive column sits at another position in the second data set:
+            # a column lookup kept from an earlier fit must show
+            return pd.DataFrame(X, columns=["a", "b", "c"] if which == 1 else ["b", "a", "c"])
         return X
 
     def fit(self, est, cfg, d):
-        return est.fit(self._x(cfg, d["X"]))
+        return est.fit(self._x(cfg, d["X"], d["id"]))
 
     def probes(self, est, cfg, pair, seed):
         w1, w2 = self.widths(cfg)
-        X1, X2 = self._x(cfg, dataset(pair, 1, w1)["X"]), self._x(cfg, dataset(pair, 2, w2)["X"])
+        X1, X2 = self._x(cfg, dataset(pair, 1, w1)["X"], 1), self._x(cfg, dataset(pair, 2, w2)["X"], 2)
         return {"transform1": lambda: _arr(est.transform(X1)), "transform2": lambda: _arr(est.transform(X2))}
 
     def attrs(self, est):
@@ -655,7 +659,7 @@ class CHECK(Check):
                   "the Python specification automaton. PARTIAL: the machines model latches and attribute presence, "
                   "not Python object identity, pickle or clone internals, nor the learned numbers.")
     design_ref = "DESIGN.md section 4 (C19), section 5 (F5a-F5e), section 6 (partial)"
-    quick_cases = 1500
+    quick_cases = 1625
     thorough_cases = 600
     # sized for ~80-110 s of work on a quiet machine; the budget only cuts the run on an overloaded one
     quick_budget_s = int(os.environ.get("VERIF_C19_BUDGET_S", "225"))
